@@ -11,7 +11,7 @@ Section TdInd.
   Hypothesis HLeaf : forall l, P (Leaf l).
   Hypothesis HNode : forall bs ents, Forall (fun kv => P (snd kv)) ents -> P (Node bs ents).
   Hypothesis HLazy : forall sd ms, Forall P ms -> P (Lazy sd ms).
-  Hypothesis HTCls : forall c inner, P inner -> P (TCls c inner).
+  Hypothesis HTCls : forall c nt inner, P inner -> P (TCls c nt inner).
   Hypothesis HNData : forall bs pl, P (NData bs pl).
   Hypothesis HNStack : forall items, Forall P items -> P (NStack items).
   Fixpoint td_ind' (t : td) : P t :=
@@ -23,7 +23,7 @@ Section TdInd.
     | Lazy sd ms =>
         HLazy sd ms ((fix go (l : list td) : Forall P l :=
                         match l with [] => Forall_nil _ | x :: r => Forall_cons x (td_ind' x) (go r) end) ms)
-    | TCls c inner => HTCls c inner (td_ind' inner)
+    | TCls c nt inner => HTCls c nt inner (td_ind' inner)
     | NData bs pl => HNData bs pl
     | NStack items =>
         HNStack items ((fix go (l : list td) : Forall P l :=
@@ -634,18 +634,112 @@ Proof.
 Qed.
 
 (* ------------------------------------------------------------------ tensorclass instances *)
-Lemma tc_roundtrip : forall o c inner,
-  builtin_cls c = false -> (exists d, saved_ok o inner d) -> is_collection inner = true ->
-  exists d, save_over o (TCls c inner) empty_dir = Ok d /\ decode d = Ok (norm (TCls c inner)).
+Lemma map_fst_norm_ents : forall es, map fst (norm_ents es) = map fst es.
+Proof. induction es as [|[k x] es IH]; cbn; auto. now rewrite IH. Qed.
+
+Lemma fold_jset_fresh_gen : forall {A} (l m : list (string * A)),
+  NoDup (map fst l) -> (forall k, In k (map fst l) -> sget k m = None) ->
+  fold_left (fun m kv => jset (fst kv) (snd kv) m) l m = m ++ l.
 Proof.
-  intros o c inner Hc (d & Hs & Hd) Hcoll.
-  unfold empty_dir. cbn [save_over]. change (sub_dir "_tensordict" []) with empty_dir. rewrite Hs. cbn [bind jset fset].
-  eexists. split; [reflexivity|].
-  rewrite decode_dir. unfold load_top. cbn [fget fname_eqb]. cbn [sget]. rewrite String.eqb_refl.
+  intros A. induction l as [|[k x] l IH]; intros m Hnd Hfresh; cbn.
+  - now rewrite app_nil_r.
+  - inversion Hnd; subst. rewrite jset_fresh by (apply Hfresh; now left).
+    rewrite IH; auto.
+    + now rewrite <- app_assoc.
+    + intros k' Hk'. rewrite sget_app_none by (apply Hfresh; now right). cbn.
+      destruct (String.eqb k' k) eqn:E; auto. apply String.eqb_eq in E. subst. contradiction.
+Qed.
+
+Lemma in_fst_filter : forall {A} (f : string * A -> bool) l k, In k (map fst (filter f l)) -> In k (map fst l).
+Proof.
+  intros A f l k H. apply in_map_iff in H as (kv & E & Hin). apply filter_In in Hin as [Hin _].
+  apply in_map_iff. exists kv. auto.
+Qed.
+
+Lemma nodup_fst_filter : forall {A} (f : string * A -> bool) l, NoDup (map fst l) -> NoDup (map fst (filter f l)).
+Proof.
+  intros A f l. induction l as [|[k v] l IH]; cbn; intro H; [constructor|].
+  inversion H; subst. destruct (f (k, v)); cbn; auto. constructor; auto.
+  intro Hin. apply in_fst_filter in Hin. contradiction.
+Qed.
+
+Lemma filter_disjoint_keys : forall {A} (f : string * A -> bool) l k, NoDup (map fst l) ->
+  In k (map fst (filter (fun kv => negb (f kv)) l)) -> sget k (filter f l) = None.
+Proof.
+  intros A f l k. induction l as [|[k' v] l IH]; cbn; intros Hnd Hin; auto.
+  inversion Hnd; subst. destruct (f (k', v)) eqn:Ef; cbn in *.
+  - destruct (String.eqb k k') eqn:E; auto.
+    apply String.eqb_eq in E. subst k'. apply in_fst_filter in Hin. contradiction.
+  - destruct Hin as [E|Hin]; auto. subst k'. apply sget_none_notin. intro G. apply in_fst_filter in G. contradiction.
+Qed.
+
+(* the json-serialisable fields of a tensorclass go through meta.json unchanged *)
+Lemma json_fields_ser : forall nt, exists jl, json_fields (ser_fields nt) = Some jl
+  /\ map (fun kv => (fst kv, payload_of_json (snd kv))) jl = ser_fields nt.
+Proof.
+  induction nt as [|[k v] nt IH].
+  - exists []. auto.
+  - destruct IH as (jl & H1 & H2). unfold ser_fields in *. cbn [filter snd]. destruct (is_json_serializable v) eqn:E.
+    + destruct (plain_roundtrip v (ser_plain v E)) as (j & Hj1 & Hj2). exists ((k, j) :: jl).
+      cbn [json_fields]. rewrite Hj1, H1. split; auto. cbn [map fst snd]. now rewrite Hj2, H2.
+    + exists jl. auto.
+Qed.
+
+Lemma tc_meta_fresh : forall c jl, NoDup (map fst jl) -> ~ In "_type" (map fst jl) -> tc_meta c jl = ("_type", JStr c) :: jl.
+Proof.
+  intros c jl Hnd Hno. unfold tc_meta. rewrite fold_jset_fresh_gen; auto.
+  intros k Hk. cbn. destruct (String.eqb k "_type") eqn:E; auto. apply String.eqb_eq in E. subst. contradiction.
+Qed.
+
+Lemma tc_check_keys_fresh : forall inner nt, (forall k, In k (map fst nt) -> ~ In k (td_keys inner)) -> tc_check_keys inner nt = Ok nt.
+Proof.
+  intros inner nt H. destruct inner; auto. cbn [tc_check_keys]. cbn [td_keys] in H.
+  induction nt as [|[k v] nt IH]; auto.
+  assert (E : smem k ents = false).
+  { unfold smem. assert (G : sget k ents = None) by (apply sget_none_notin; apply H; now left). now rewrite G. }
+  rewrite E. rewrite IH; auto. intros k' Hk'. apply H. now right.
+Qed.
+
+Lemma td_keys_norm : forall t k, In k (td_keys (norm t)) -> In k (td_keys t).
+Proof.
+  intros t k. destruct t; cbn [td_keys norm]; auto; try (now intros []).
+  fold norm_ents. intro H. rewrite map_app in H. apply in_app_or in H as [H|H]; apply in_fst_filter in H; now rewrite map_fst_norm_ents in H.
+Qed.
+
+Lemma tc_roundtrip : forall o c nt inner,
+  builtin_cls c = false -> (exists d, saved_ok o inner d) -> is_collection inner = true ->
+  NoDup (map fst nt) -> ~ In "_type" (map fst nt) -> (forall k, In k (map fst nt) -> ~ In k (td_keys inner)) ->
+  exists d, save_over o (TCls c nt inner) empty_dir = Ok d /\ decode d = Ok (norm (TCls c nt inner)).
+Proof.
+  intros o c nt inner Hc (d & Hs & Hd) Hcoll Hnd Hty Hkeys.
+  destruct (json_fields_ser nt) as (jl & J1 & J2).
+  assert (Kjl : map fst jl = map fst (ser_fields nt)).
+  { rewrite <- J2. rewrite map_map. cbn. reflexivity. }
+  assert (Hmeta : tc_meta c jl = ("_type", JStr c) :: jl).
+  { apply tc_meta_fresh; rewrite Kjl.
+    - now apply nodup_fst_filter.
+    - intro G. apply in_fst_filter in G. contradiction. }
+  assert (Hchk : tc_check_keys (norm inner) (ser_fields nt ++ pkl_fields nt) = Ok (ser_fields nt ++ pkl_fields nt)).
+  { apply tc_check_keys_fresh. intros k Hk G. apply td_keys_norm in G. apply (Hkeys k); auto.
+    rewrite map_app in Hk. apply in_app_or in Hk as [Hk|Hk]; now apply in_fst_filter in Hk. }
   unfold builtin_cls in Hc. apply orb_false_iff in Hc as [Hc H4]. apply orb_false_iff in Hc as [Hc H3].
-  apply orb_false_iff in Hc as [H1 H2]. rewrite H1, H2, H4, H3.
-  unfold load_tc. cbn [decode_subs sget]. rewrite String.eqb_refl. rewrite Hd. cbn [bind].
-  destruct inner; try discriminate; reflexivity.
+  apply orb_false_iff in Hc as [H1 H2].
+  unfold empty_dir. cbn [save_over]. unfold tc_files. rewrite J1. cbn [bind].
+  change (sub_dir "_tensordict" []) with empty_dir. rewrite Hs. cbn [bind jset fset]. rewrite Hmeta.
+  destruct (pkl_fields nt) as [|p0 pk] eqn:Epk.
+  - cbn [fdel fname_eqb]. eexists. split; [reflexivity|].
+    rewrite decode_dir. unfold load_top. cbn [fget fname_eqb]. cbn [sget]. rewrite String.eqb_refl.
+    rewrite H1, H2, H4, H3.
+    unfold load_tc. cbn [fget fname_eqb bind decode_subs sget jdel]. rewrite !String.eqb_refl. rewrite J2.
+    rewrite Hd. cbn [bind]. rewrite app_nil_r in Hchk. rewrite Hchk. cbn [bind norm]. now rewrite Epk, app_nil_r.
+  - cbn [fname_eqb]. eexists. split; [reflexivity|].
+    rewrite decode_dir. unfold load_top. cbn [fget fname_eqb]. cbn [sget]. rewrite String.eqb_refl.
+    rewrite H1, H2, H4, H3.
+    unfold load_tc. cbn [fget fname_eqb bind decode_subs sget jdel]. rewrite !String.eqb_refl. rewrite J2.
+    rewrite fold_jset_fresh_gen.
+    + rewrite Hd. cbn [bind]. rewrite Hchk. cbn [bind norm]. now rewrite Epk.
+    + rewrite <- Epk. now apply nodup_fst_filter.
+    + intros k Hk. rewrite <- Epk in Hk. unfold ser_fields. apply filter_disjoint_keys; auto.
 Qed.
 
 (* ------------------------------------------------------------------ NonTensorData *)
@@ -903,10 +997,17 @@ Proof.
     { intro E. subst. discriminate. }
     exists d. split; auto.
   - (* tensorclass *)
-    cbn [valid] in Hv. apply andb_true_iff in Hv as [Hv Hcoll]. apply andb_true_iff in Hv as [Hc Hvi].
-    apply negb_true_iff in Hc.
-    destruct (tc_roundtrip o c t Hc) as (d & Hd1 & Hd2); auto.
+    cbn [valid] in Hv. apply andb_true_iff in Hv as [Hv Hk]. apply andb_true_iff in Hv as [Hv Hty].
+    apply andb_true_iff in Hv as [Hv Hnd]. apply andb_true_iff in Hv as [Hv Hcoll]. apply andb_true_iff in Hv as [Hc Hvi].
+    apply negb_true_iff in Hc. apply negb_true_iff in Hty.
+    destruct (tc_roundtrip o c nt t Hc) as (d & Hd1 & Hd2); auto.
     { apply IHt; auto. destruct t; try discriminate; reflexivity. }
+    { now apply nodupb_NoDup. }
+    { apply sget_none_notin. unfold smem in Hty. destruct (sget "_type" nt); [discriminate|reflexivity]. }
+    { intros k Hin G. apply in_map_iff in Hin as (kv & E & Hin). rewrite forallb_forall in Hk. specialize (Hk kv Hin).
+      apply negb_true_iff in Hk. subst k.
+      assert (existsb (String.eqb (fst kv)) (td_keys t) = true) by (apply existsb_exists; exists (fst kv); split; auto; apply String.eqb_refl).
+      congruence. }
     exists d. split; auto.
   - (* NonTensorData *)
     destruct (ndata_roundtrip o bs pl) as (d & Hd1 & Hd2). exists d. split; auto.
@@ -933,15 +1034,12 @@ Inductive same_mapping : td -> td -> Prop :=
     List.length es = List.length es' ->
     same_mapping (Node bs es) (Node bs es')
 | SMLazy : forall sd ms ms', Forall2 same_mapping ms ms' -> same_mapping (Lazy sd ms) (Lazy sd ms')
-| SMTCls : forall c a b, same_mapping a b -> same_mapping (TCls c a) (TCls c b)
+| SMTCls : forall c nt nt' a b, (forall k, sget k nt = sget k nt') -> same_mapping a b -> same_mapping (TCls c nt a) (TCls c nt' b)
 | SMNData : forall bs p, same_mapping (NData bs p) (NData bs p)
 | SMNStack : forall l l', Forall2 same_mapping l l' -> same_mapping (NStack l) (NStack l').
 
 Lemma sget_norm_ents : forall es k, sget k (norm_ents es) = option_map norm (sget k es).
 Proof. induction es as [|[k' x] es IH]; intro k; cbn; auto. destruct (String.eqb k k'); auto. Qed.
-
-Lemma map_fst_norm_ents : forall es, map fst (norm_ents es) = map fst es.
-Proof. induction es as [|[k x] es IH]; cbn; auto. now rewrite IH. Qed.
 
 Lemma sget_filter_none : forall {A} (f : string * A -> bool) l k, sget k l = None -> sget k (filter f l) = None.
 Proof.
@@ -991,7 +1089,11 @@ Proof.
     induction ms as [|m ms IH]; cbn; constructor.
     + inversion H; subst. cbn in Hms. apply andb_true_iff in Hms as [Hm _]. apply andb_true_iff in Hm as [Hm _]. auto.
     + inversion H; subst. cbn in Hms. apply andb_true_iff in Hms as [_ Hms]. apply IH; auto.
-  - cbn [valid] in Hv. apply andb_true_iff in Hv as [Hv _]. apply andb_true_iff in Hv as [_ Hv]. cbn [norm]. constructor. auto.
+  - cbn [valid] in Hv. apply andb_true_iff in Hv as [Hv _]. apply andb_true_iff in Hv as [Hv _].
+    apply andb_true_iff in Hv as [Hv Hnd]. apply andb_true_iff in Hv as [Hv _]. apply andb_true_iff in Hv as [_ Hv].
+    cbn [norm]. constructor; auto.
+    intro k. unfold ser_fields, pkl_fields. symmetry. apply (sget_partition (fun kv : string * payload => is_json_serializable (snd kv))).
+    now apply nodupb_NoDup.
   - constructor.
   - cbn [valid] in Hv. rewrite (norm_stack _ Hv). constructor.
     clear. induction items; constructor; auto.
